@@ -22,7 +22,8 @@ RULE = (
     "scripted remote users (each with a generated downloader behaviour: completes / never closes / never answers / "
     "refuses; optional 1 KiB/s upload limit, 1..3 upload slots), server-excluded search phrases in arbitrary letter "
     "case, and a history of <=12 operations: search from user u (server FileSearch, ServerSearchRequest, "
-    "DistributedSearchRequest over a D connection), PeerSharesRequest, PeerDirectoryContentsRequest, PeerTransferQueue "
+    "DistributedSearchRequest and the wrapped DistributedServerSearchRequest over a D connection: all four handlers "
+    "that end in _query_shares_and_reply), PeerSharesRequest, PeerDirectoryContentsRequest, PeerTransferQueue "
     "/ PeerTransferRequest(direction upload) for a path naming a file through any enclosing directory's alias (exact, "
     "upper/lower case, doubled separator, forward slashes, trailing separator, unknown file, unknown alias), friend "
     "add/remove, block/unblock with flags, mode/users update, add/remove directory (nested too; not scanned / scanned "
@@ -101,7 +102,9 @@ PHRASE_ALPHABET = set('abcdefghijklmnopqrstuvwxyzABCDEFGHIJKLMNOPQRSTUVWXYZ01234
 BEHAVIOURS = ['fast', 'hold', 'silent', 'refuse']
 VARIANTS = ['exact', 'exact', 'exact', 'exact', 'exact', 'upper', 'lower', 'dblsep', 'fwd', 'trail', 'nofile',
             'noalias']
-CARRIERS = ['file-search', 'server-search', 'distributed-search']
+# one carrier per SearchManager handler that ends in _query_shares_and_reply (FileSearch.Response,
+# ServerSearchRequest.Response, DistributedSearchRequest.Request, DistributedServerSearchRequest.Request)
+CARRIERS = ['file-search', 'server-search', 'distributed-search', 'distributed-server-search']
 ADVANCES = [0.1, 0.6, 1.2, 2.5]
 SETTLE = 2.0
 # virtual duration of every executor job (file open/read/close, exists, getsize, scans) after the initial scan: a slow
@@ -246,7 +249,7 @@ def _op(draw, m, targets):
             return op
         kind = 'block'
     if kind == 'search':
-        return {'t': 'search', 'u': draw(st.integers(0, 2)), 'c': draw(st.integers(0, 2)),
+        return {'t': 'search', 'u': draw(st.integers(0, 2)), 'c': draw(st.integers(0, len(CARRIERS) - 1)),
                 'q': draw(st.sampled_from([0, 0, 0] + list(range(len(QUERIES)))))}
     if kind == 'shares':
         return {'t': 'shares', 'u': draw(st.integers(0, 2))}
@@ -438,7 +441,7 @@ def _sanitise(case):
         g = lambda k: _int(op.get(k))   # noqa: E731
         gap = max(1, min(500, g('gap'))) if op.get('gap') is not None else 20
         if t == 'search':
-            ops.append({'t': t, 'u': g('u') % 3, 'c': g('c') % 3, 'q': g('q') % len(QUERIES)})
+            ops.append({'t': t, 'u': g('u') % 3, 'c': g('c') % len(CARRIERS), 'q': g('q') % len(QUERIES)})
         elif t == 'shares':
             ops.append({'t': t, 'u': g('u') % 3})
         elif t == 'dirreq':
@@ -896,7 +899,12 @@ def run_case(case) -> CaseResult:
                         if link is None or link.ep.dead or link.ep.peer_closed:
                             link = dlink['l'] = dpeer.connect('D')
                             await asyncio.sleep(0.01)
-                        link.send_msg(M.DistributedSearchRequest.Request(0x31, USERS[u], ticket[0], q))
+                        if carrier == 'distributed-search':
+                            link.send_msg(M.DistributedSearchRequest.Request(0x31, USERS[u], ticket[0], q))
+                        else:
+                            # deprecated wrapped carrier: the server search request passed on as-is by the parent
+                            link.send_msg(M.DistributedServerSearchRequest.Request(
+                                M.DistributedSearchRequest.Request.MESSAGE_ID, 0x31, USERS[u], ticket[0], q))
                     await asyncio.sleep(wait_req)
                     drain()
                     return
